@@ -18,6 +18,15 @@ Expected(c) ==
     [] c.fn = "murmur3"    -> Murmur3(c.key, c.seed)
     [] c.fn = "cmcol"      -> CMCol(c.key, c.row, c.W)
     [] c.fn = "hllplace"   -> <<HllIdx(FastHash64(c.key, c.seed), c.p), HllRank(FastHash64(c.key, c.seed), c.p)>>
+    \* C14, tolerant stage: every cell of the joint column distribution of two rows holds between
+    \* half and twice its expectation n/W^2 (expected value of the check: "ok")
+    [] c.fn = "joint"      -> IF \A i \in 1..Len(c.counts) : \A j \in 1..Len(c.counts[i]) :
+                                    /\ 2 * c.counts[i][j] * c.W * c.W >= c.n
+                                    /\ c.counts[i][j] * c.W * c.W <= 2 * c.n
+                              THEN "ok" ELSE "skewed"
+    \* C14, documented bound: at most exp(-depth) of the keys exceed true + e*N/width
+    \* (c.ed = ceil(exp(depth)))
+    [] c.fn = "zipf"       -> IF c.bad * c.ed <= c.nkeys THEN "ok" ELSE "exceeded"
 
 TInit == tid \in 1..Len(Batches) /\ l = 1 /\ ok = TRUE
 TStep ==
